@@ -108,6 +108,34 @@ Proof.
   right. apply (IH b).
 Qed.
 
+(* the directories visited are the ancestors of the target's directory, nearest first, up to and
+   including the first one that exists: that one is where the search path is evaluated *)
+Lemma chain_rev_spec rd :
+  isdir _ t [] = true ->
+  exists pre x rest,
+    chain_rev t rd = pre ++ [x] /\ ancestors_rev rd = pre ++ x :: rest /\
+    isdir _ t x = true /\ Forall (fun y => isdir _ t y = false) pre.
+Proof.
+  intros R. induction rd as [|n r IH].
+  - exists [], [], []. simpl. auto.
+  - cbn [chain_rev ancestors_rev]. destruct (isdir _ t (rev (n :: r))) eqn:E.
+    + exists [], (rev (n :: r)), (ancestors_rev r). simpl. auto.
+    + destruct IH as [pre [x [rest [A [B [D F]]]]]].
+      exists (rev (n :: r) :: pre), x, rest. rewrite A, B. simpl. repeat split; auto.
+Qed.
+
+Theorem lookup_dir_is_first_existing_ancestor d :
+  isdir _ t [] = true ->
+  exists nearer farther,
+    ancestors d = nearer ++ last (dir_chain t d) [] :: farther /\
+    isdir _ t (last (dir_chain t d) []) = true /\
+    Forall (fun y => isdir _ t y = false) nearer.
+Proof.
+  intros R. unfold dir_chain, ancestors.
+  destruct (chain_rev_spec (rev d) R) as [pre [x [rest [A [B [D F]]]]]].
+  exists pre, rest. rewrite A, B, last_last. auto.
+Qed.
+
 (* ---------- what a key stands for: a load that does not consult the cache ---------- *)
 Definition load_result (files : list path) : err + db :=
   match load_files t files with
